@@ -18,6 +18,10 @@ func MinU64(a uint64, b uint64) uint64 {
 
 // The largest integer x such that x**2 is less than or equal to n.
 func IntegerSquareroot(n uint64) uint64 {
+	// spec: `if n == UINT64_MAX: return UINT64_MAX_SQRT`. Without it x+1 wraps to 0, x becomes 0 and n/x panics.
+	if n == math.MaxUint64 {
+		return 4294967295
+	}
 	x := n
 	y := (x + 1) >> 1
 	for y < x {
